@@ -391,7 +391,13 @@ func (u *Unit) frameObligations(f *Frame, ct *FuncContract, entry, ret *state) {
 
 // ---------- solving ----------
 
-func (u *Unit) script(o *Obligation) string {
+func (u *Unit) script(o *Obligation) string { return u.scriptOpt(o, false) }
+
+// scriptQF drops every quantified assumption: a relaxation used only to search for candidate counterexamples,
+// which are then confirmed (or discarded) by replay on the real code.
+func (u *Unit) scriptQF(o *Obligation) string { return u.scriptOpt(o, true) }
+
+func (u *Unit) scriptOpt(o *Obligation, dropQuant bool) string {
 	var b strings.Builder
 	items := u.ctx.items[:o.Mark]
 	// cone of influence over definitions: keep all asserts, drop unused define/declare
@@ -424,6 +430,10 @@ func (u *Unit) script(o *Obligation) string {
 		switch it.kind {
 		case itDecl, itDefine, itRaw:
 			if it.name != "" && !needed[it.name] {
+				continue
+			}
+		case itAssert:
+			if dropQuant && (strings.Contains(it.text, "(forall ") || strings.Contains(it.text, "(exists ")) {
 				continue
 			}
 		}
@@ -467,6 +477,15 @@ func solveUnit(res *UnitResult, opt Options) {
 			defer func() { <-sem }()
 			script := u.script(o)
 			o.Res = solve(script, u.inputSyms(), opt.Timeout, opt.NeedAgree)
+			if o.Res.Verdict == "unknown" && !strings.Contains(o.Cond, "(forall ") && !strings.Contains(o.Cond, "spec:") {
+				// candidate counterexample search without quantified assumptions
+				r2 := solve(u.scriptQF(o), u.inputSyms(), opt.Timeout, 1)
+				if r2.Verdict == "sat" {
+					r2.Solver = "qf-relaxation"
+					r2.Output = "candidate model from the quantifier-free relaxation; full query: " + o.Res.Output
+					o.Res = r2
+				}
+			}
 		}(o)
 	}
 	wg.Wait()
